@@ -70,12 +70,13 @@ theorem validateIds_some {I : Type} : ∀ (items : List (Item I)) (seen : List S
         · exact Or.inl ⟨x, List.mem_cons_of_mem _ hx, hxe⟩
         · refine Or.inr (Or.inl ?_)
           intro hn
-          exact hnd (List.nodup_cons.mp (by simpa using hn)).2
+          have hn' : (it.cid :: rest.map (·.cid)).Nodup := hn
+          exact hnd (List.nodup_cons.mp hn').2
         · rcases List.mem_cons.mp hxs with heq | hxs
           · refine Or.inr (Or.inl ?_)
             intro hn
-            have := (List.nodup_cons.mp (by simpa using hn)).1
-            exact this (List.mem_map.mpr ⟨x, hx, heq⟩)
+            have hn' : (it.cid :: rest.map (·.cid)).Nodup := hn
+            exact (List.nodup_cons.mp hn').1 (List.mem_map.mpr ⟨x, hx, heq⟩)
           · exact Or.inr (Or.inr ⟨x, List.mem_cons_of_mem _ hx, hxs⟩)
 
 /-! ## the de-duplication map -/
@@ -180,7 +181,7 @@ theorem addItem_keeps (it : Item I) : ∀ (gs : List (Group I K)) (g : Group I K
 /-- the new check lands in the entry of its key -/
 theorem addItem_lands (it : Item I) : ∀ (gs : List (Group I K)),
     ∃ g' ∈ addItem key it gs, g'.key = key it.inp ∧ it.cid ∈ g'.ids
-  | [] => ⟨_, by simp [addItem], rfl, by simp⟩
+  | [] => ⟨{ key := key it.inp, rep := it.inp, ids := [it.cid] }, by simp [addItem], rfl, by simp⟩
   | g :: gs => by
     unfold addItem
     split
@@ -269,7 +270,7 @@ theorem mapGet_of_mem {V : Type} (m : List (String × V)) (hn : (m.map (·.1)).N
     (h : (id, v) ∈ m) : mapGet m id = some v := by
   unfold mapGet
   have hn' : (m.reverse.map (·.1)).Nodup := by
-    rw [List.map_reverse]; exact List.nodup_reverse.mpr hn
+    rw [List.map_reverse]; exact (List.reverse_perm _).nodup_iff.mpr hn
   have h' : (id, v) ∈ m.reverse := List.mem_reverse.mpr h
   generalize m.reverse = l at hn' h'
   induction l with
@@ -403,6 +404,22 @@ theorem batch_ids_exactly_once (maxChecks : Nat) (key : I → K) (check : I → 
         intro id hid
         exact mapGet_none _ _ (fun hm => hid (p.mem_iff.mp hm))
 
+theorem inj_of_nodup_map : ∀ (items : List (Item I)), (items.map (·.cid)).Nodup →
+    ∀ x ∈ items, ∀ y ∈ items, x.cid = y.cid → x = y
+  | [], _, x, hx, _, _, _ => by simp at hx
+  | a :: rest, hn, x, hx, y, hy, hxy => by
+    have hn' : (a.cid :: rest.map (·.cid)).Nodup := hn
+    have hnd := List.nodup_cons.mp hn'
+    rcases List.mem_cons.mp hx with hxa | hx'
+    · rcases List.mem_cons.mp hy with hya | hy'
+      · rw [hxa, hya]
+      · subst hxa
+        exact absurd (List.mem_map.mpr ⟨y, hy', hxy.symm⟩ : x.cid ∈ rest.map (·.cid)) hnd.1
+    · rcases List.mem_cons.mp hy with hya | hy'
+      · subst hya
+        exact absurd (List.mem_map.mpr ⟨x, hx', hxy⟩ : y.cid ∈ rest.map (·.cid)) hnd.1
+      · exact inj_of_nodup_map rest hnd.2 x hx' y hy' hxy
+
 /-- **Items that differ are never answered from each other**: in the de-duplication map two checks of
 the request share an entry only if their inputs are `same`. -/
 theorem no_cross_answer (key : I → K) (same : I → I → Prop) (hkey : ∀ a b, key a = key b → same a b)
@@ -410,9 +427,8 @@ theorem no_cross_answer (key : I → K) (same : I → I → Prop) (hkey : ∀ a 
     (g : Group I K) (hg : g ∈ groupItems key items) (hag : a.cid ∈ g.ids) (hbg : b.cid ∈ g.ids) :
     same a.inp b.inp := by
   have inv := groupItems_inv key items
-  have uniq : ∀ x ∈ items, ∀ y ∈ items, x.cid = y.cid → x = y := by
-    intro x hx y hy hxy
-    exact List.inj_on_of_nodup_map hids hx hy hxy
+  have uniq : ∀ x ∈ items, ∀ y ∈ items, x.cid = y.cid → x = y :=
+    fun x hx y hy hxy => inj_of_nodup_map items hids x hx y hy hxy
   obtain ⟨x, hx, hx1, hx2⟩ := inv.sound g hg a.cid hag
   obtain ⟨y, hy, hy1, hy2⟩ := inv.sound g hg b.cid hbg
   have ex := uniq x hx a ha hx1
@@ -459,31 +475,25 @@ theorem execute_error_iff (maxChecks : Nat) (key : I → K) (check : I → R) (c
     (∃ e, execute maxChecks key check cancelled permRun permFan items = .error e) ↔
       items.length > maxChecks ∨ items = [] ∨ (∃ it ∈ items, it.cid = "") ∨ ¬ (items.map (·.cid)).Nodup := by
   unfold execute
-  constructor
-  · rintro ⟨e, h⟩
-    split at h
-    · rename_i h1; exact Or.inl h1
-    · split at h
-      · rename_i h2; exact Or.inr (Or.inl (List.length_eq_zero_iff.mp h2))
-      · split at h
-        · rename_i e' hv
-          rcases validateIds_some items [] 0 e' hv with h3 | h3 | ⟨_, _, h3⟩
-          · exact Or.inr (Or.inr (Or.inl h3))
-          · exact Or.inr (Or.inr (Or.inr h3))
-          · simp at h3
-        · exact absurd h (by simp)
-  · intro h
-    split
-    · exact ⟨_, rfl⟩
-    · split
-      · exact ⟨_, rfl⟩
-      · split
-        · exact ⟨_, rfl⟩
-        · rename_i h1 h2 hv
-          have := validateIds_none items [] 0 hv
-          rcases h with h | h | ⟨it, hit, he⟩ | h
-          · exact absurd h h1
-          · exact absurd (by simp [h]) h2
+  by_cases h1 : items.length > maxChecks
+  · simp [h1]
+  · by_cases h2 : items.length = 0
+    · simp [List.length_eq_zero_iff.mp h2]
+    · have h2' : items ≠ [] := fun e => h2 (by simp [e])
+      cases hv : validateIds [] 0 items with
+      | some e' =>
+        simp only [h1, h2, if_false, false_or, h2']
+        refine ⟨fun _ => ?_, fun _ => ⟨e', rfl⟩⟩
+        rcases validateIds_some items [] 0 e' hv with h3 | h3 | ⟨_, _, h3⟩
+        · exact Or.inl h3
+        · exact Or.inr h3
+        · simp at h3
+      | none =>
+        have := validateIds_none items [] 0 hv
+        simp only [h1, h2, if_false, false_or, h2']
+        constructor
+        · rintro ⟨e, he⟩; exact absurd he (by simp)
+        · rintro (⟨it, hit, he⟩ | h)
           · exact absurd he (this.2 it hit).1
           · exact absurd this.1 h
 
@@ -546,6 +556,7 @@ end c24
 /-! ## Ties to the regenerated source facts (`Gen.Batch`, extract/facts_batch.go; the wiring of
 `generateCacheKeyFromCheck` itself is also pinned by `C24.tie_helpers`) -/
 
+set_option maxRecDepth 200000 in
 /-- arguments of `CheckCacheKey` and of the nested `InvariantCacheKey`, in order -/
 theorem tie_dedup_key : Gen.Batch.checkCacheKeyArgs =
       ["storeID", "checkTupleKey.GetObject()", "checkTupleKey.GetRelation()", "checkTupleKey.GetUser()",
@@ -561,6 +572,7 @@ theorem tie_validation : Gen.Batch.executeGuards =
       ["if check.GetCorrelationId() == \"\"", "_, ok := seen[check.GetCorrelationId()]", "if ok",
        "seen[check.GetCorrelationId()] = struct{}{}"] := by decide
 
+set_option maxRecDepth 200000 in
 /-- the grouping loop: list order, present key → append the id, absent → new entry with this check -/
 theorem tie_grouping : Gen.Batch.groupLoop =
       ["range:params.Checks", "key := generateCacheKeyFromCheck(check, params.StoreID, params.AuthorizationModelID)",
@@ -569,6 +581,7 @@ theorem tie_grouping : Gen.Batch.groupLoop =
        "else:cacheKeyMap[key] = &checkAndCorrelationIDs{ Check: check, CorrelationIDs: []CorrelationID{CorrelationID(check.GetCorrelationId())}, }"] := by
   decide
 
+set_option maxRecDepth 200000 in
 /-- the executed check takes the representative's tuple key, contextual tuples and context; its result
 is stored under the group's key; the fan-out assigns the loaded outcome to every id of the entry -/
 theorem tie_run_and_fanout : Gen.Batch.checkParams =
@@ -593,7 +606,8 @@ example :
       mapGet res.results "a" = some (some (.done 1)) ∧ mapGet res.results "b" = some (some (.done 1)) ∧
       mapGet res.results "c" = some (some (.done 8)) ∧ mapGet res.results "d" = some (some (.done 2)) ∧
       res.duplicateCheckCount = 1 := by
-  refine ⟨_, rfl, ?_, ?_, ?_, ?_, ?_⟩ <;> decide
+  refine ⟨_, rfl, ?_, ?_, ?_, ?_, ?_⟩ <;>
+    simp [groupItems, addItem, fanOut, runGroups, loadResult, mapGet]
 
 /-- `batch_spec` applies to it (identity key, `same` = equality; the fan-out walks the map backwards) -/
 example (items : List (Item (Nat × Nat))) (res : Result Nat)
